@@ -289,6 +289,11 @@ func (g *bhGenerator) genProgram(depth int, origin int, self int) []bhInstr {
 			}
 		}
 	}
+	// rarely a script contract destroys itself at the end of its frame (its code is gone for the rest of the history;
+	// what it delegated or left unbonding stays in the staking module without an account behind it)
+	if depth > 0 && self >= bhNU && r.Chance(3) && (len(out) == 0 || out[len(out)-1].Op != "revert") {
+		out = append(out, bhInstr{Op: "selfdestruct", T: r.Intn(bhNU)})
+	}
 	return out
 }
 
